@@ -26,6 +26,7 @@ def run(ctx, rep):
     _strunits.strip_once(F, rep)
     _strunits.marker_radix(F, rep)
     domain_probes(F, rep)
+    float_part_probes(F, rep)
     # `+` concatenation and `*` repetition are computed by the interpreter's operator implementations (text of a number = its value's, not its spelling's):
     # the folder hands back nothing but Numbers out of the compared operator tables
     from props import C06 as _c06
@@ -76,3 +77,94 @@ def domain_probes(F, rep):
             why = "" if ok else "outside the domain of the target, but the arm returns %s" % sorted(r["rets"])
         rep.ob("C14.domain", inst, "ok" if ok else "violated", why, None, fn="bytecode::function::BuiltInFunction::run", key=key)
     rep.floor("C14.domain probes", n, 20)
+
+
+def float_part_probes(F, rep, rule="C14.float-parts"):
+    """`floor`, `ceil`, `round`, `ipart`, `fpart` of a float: the arm of BuiltInFunction::run is evaluated on the receivers 7.5, -7.5 and -2.0 with
+    std's f64 operations modelled exactly (also when the operation is picked from a table of function pointers), and the value it returns
+    must be the documented one: floor -8 / ceil -7 / round -8 (half away from zero) / ipart -7 (toward zero) / fpart -0.5 for -7.5.  Negative
+    non-whole receivers are where floor and trunc differ; the suite only has `3.1415.ipart()`."""
+    import math
+    import absint
+    import tables as _tables
+    from absint import Interp, Variant, Opaque, Ptr, Int, Flt, some, NONE
+    BIF = "bytecode::function::BuiltInFunction"
+    PRIMp = "bytecode::variables::primitive::Primitive"
+    run = F.fn(BIF + "::run")
+    adt = F.adt(BIF)
+    if run is None or adt is None:
+        raise AnchorMissing("BuiltInFunction::run")
+    names = [v["name"] for v in adt["variants"]]
+    T = _tables.Tables(F)
+
+    def rnd(x):
+        return float(math.floor(abs(x) + 0.5)) * (1 if x >= 0 else -1)
+    want = {"FloatFloor": ("floor", lambda x: float(math.floor(x))), "FloatCeil": ("ceil", lambda x: float(math.ceil(x))), "FloatRound": ("round", rnd),
+            "FloatIPart": ("ipart", lambda x: float(math.trunc(x))), "FloatFPart": ("fpart", lambda x: x - math.trunc(x))}
+
+    def f1(fun):
+        def model(it, p, fid, fn, t, a):
+            x = a[0] if a else None
+            n_ = 0
+            while isinstance(x, Ptr) and n_ < 6:
+                x = it.deref(p, x)
+                n_ += 1
+            return Flt(fun(x.v)) if isinstance(x, Flt) else NotImplemented
+        return model
+    fm = {"floor": f1(lambda x: float(math.floor(x))), "ceil": f1(lambda x: float(math.ceil(x))), "round": f1(rnd), "trunc": f1(lambda x: float(math.trunc(x))),
+          "fract": f1(lambda x: x - math.trunc(x)), "abs": f1(abs)}
+    n = 0
+    for variant, (meth, fun) in want.items():
+        if variant not in names:
+            continue
+        for x in (7.5, -7.5, -2.0):
+            recv = T.prim_value("Float", "arg0", Flt(x))
+
+            def is_args(it, p, v):
+                k = 0
+                while isinstance(v, Ptr) and k < 6:
+                    v = it.deref(p, v)
+                    k += 1
+                return isinstance(v, Opaque) and v.tag.startswith("ARGS")
+
+            def first(it, p, fid, fn, t, a, recv=recv):
+                return some(recv) if is_args(it, p, a[0]) else NotImplemented
+
+            def get(it, p, fid, fn, t, a, recv=recv):
+                if is_args(it, p, a[0]) and isinstance(a[1], Int):
+                    return some(recv) if a[1].v == 0 else NONE
+                return NotImplemented
+            models = dict(_tables.MODELS)
+            models.update({"bytecode::context::Ctx::ref_clear_local_operating_stack": lambda it, p, fid, fn, t, a: Opaque("ARGS"),
+                           "core::slice::<impl [T]>::first": first, "core::slice::<impl [T]>::get": get,
+                           "core::iter::traits::iterator::Iterator::next": lambda it, p, fid, fn, t, a: NONE})
+            for nm_, m_ in fm.items():
+                models["std::f64::<impl f64>::" + nm_] = m_
+                models["core::f64::<impl f64>::" + nm_] = m_
+            it = Interp(F, models=models, max_depth=3, max_paths=2048, loop_bound=3, inline=lambda path: path.startswith(BIF + "::run"))
+            outs = it.run(run, [Variant(BIF, names.index(variant), variant, []), Opaque("ctx")])
+            got, und = set(), []
+            for o in outs:
+                v = o.value
+                if o.kind == "panic":
+                    continue
+                if o.kind == "return" and isinstance(v, Variant) and v.adt == "core::result::Result" and v.name == "Ok" and isinstance(v.fields[0], absint.Tup):
+                    r0 = v.fields[0].fields[0]
+                    pv = r0.fields[0] if isinstance(r0, Variant) and r0.name == "Some" else None
+                    if isinstance(pv, Variant) and pv.fields and isinstance(pv.fields[0], Flt):
+                        got.add(pv.fields[0].v)
+                    else:
+                        und.append(repr(pv)[:60])
+                elif o.kind == "return" and isinstance(v, Variant) and v.name == "Err":
+                    und.append("Err")
+                else:
+                    und.append("%s" % o.kind)
+            key = "%s|%s|%s" % (rule, meth, x)
+            exp = fun(x)
+            if it.exhausted or und or len(got) != 1:
+                rep.ob(rule, "float(%s).%s() is %s" % (x, meth, exp), "undecided", "values %s, other outcomes %s" % (sorted(got), und[:3]), run.span, fn=run.path, key=key)
+                continue
+            n += 1
+            g = got.pop()
+            rep.ob(rule, "float(%s).%s() is %s" % (x, meth, exp), "ok" if g == exp else "violated", "" if g == exp else "the arm returns %s" % g, run.span, fn=run.path, key=key)
+    rep.floor(rule + " evaluations", n, 12)
